@@ -582,7 +582,13 @@ def run_property(pid, tier, seed):
             runner.check_stream(res)
             return res
         items = streams(pid, tier, seed)
-        with ThreadPoolExecutor(max_workers=min(8, max(1, len(items)))) as ex:
+        if tier != "quick":
+            # thorough: the random streams (not the complete sweeps, which do not depend on the seed) at three more derived seeds
+            for i in (1, 2, 3):
+                for name, cfg, ops in streams(pid, tier, seed + 7919 * i):
+                    if not (name.startswith("sweep") or name.startswith("thr") or name.startswith("hex")):
+                        items.append(("%s_d%d" % (name, i), cfg, ops))
+        with ThreadPoolExecutor(max_workers=min(12, max(1, len(items)))) as ex:
             results = list(ex.map(prepare, items))
         for res in results:
             evaluate_stream(ctx, res)
